@@ -356,7 +356,7 @@ def run(rep, pdb, tier):
             unfiltered = replaces and tok(p_, i) and tok(s_, i2) and toklist(p_) and toklist(s_) and p_.value[2][2][1] == s_.value[2][2][1] and ri_[2] == ("len", p_.value[2][2][1])
             okr = iscoord and isvar and slot and unfiltered and rv is not None and rv[1:4] == (num(0), NV, False)
         rep.add("io-agreement", rule, bool(okw and okr), w["body"], "writer record = coordinate + nvars values: %s; reader stride nvars+1 with matching field order: %s" % (okw, okr), where=loc(w["body"]))
-    rep.floor("flat-index/", 16)
+    rep.floor("flat-index/", 10)
     rep.floor("accessor-guards/", 9)
     rep.floor("storage/", 4)
     rep.floor("cross-sections/", 2)
